@@ -273,6 +273,25 @@ def x_seq(ctx, case):
         started = [e.test for e in log2.events if e.name == "startTest"]
         stopped = [e.test for e in log2.events if e.name == "stopTest"]
         want2 = [(r["id"], degrade.get(status_map[r["status"]], status_map[r["status"]])) for r in fin2 + rest2]
+        # ... and what such a result is TOLD about a failure holds every UTF-8 text attachment of the test (the details
+        # travel as one synthetic exception there), not just the traceback
+        for ev in log2.events:
+            err = (ev.payload or {}).get("err") if ev.name in ("addFailure", "addError", "addExpectedFailure") else None
+            recs = [r for r in fin2 + rest2 if r["id"] == ev.test]
+            if err is None or len(recs) != 1 or recs[0]["status"] != "fail":
+                # (an id reported more than once: which record the event belongs to is not decided here; an unexpected
+                # success degraded to a failure carries no details by design; incomplete tests: not asked)
+                continue
+            missing = []
+            for name, chunks in recs[0]["files"].items():
+                data = b"".join(chunks)
+                if recs[0]["mime"].get(name) == MIMES[1] and data:
+                    text = data.decode("utf8")
+                    if text not in err[1]:
+                        missing.append((name, text))
+            ctx.check(not missing, "ext.replay-matches-model",
+                      lambda: {"target": flavour, "test": ev.test, "text attachments missing from what the result was told": missing,
+                               "told": err[1][-300:], **detail()})
         ctx.check(sorted(map(repr, got2)) == sorted(map(repr, want2)) and got2[:len(fin2)] == want2[:len(fin2)]
                   and sorted(map(repr, started)) == sorted(map(repr, stopped)) == sorted(repr(r["id"]) for r in fin2 + rest2),
                   "ext.replay-matches-model",
